@@ -73,7 +73,9 @@ ELEMS = ["scalar", "vec2"]
 # index replays: nested lists and nested arrays take the same constructor path (np.concatenate), so the
 # list form is compared in the attribute check only
 RFORMS = ["nested-arrays", "flat+list-lengths", "flat+ndarray-lengths"]
-VARIANTS = [(f, e) for e in ELEMS for f in RFORMS]
+# ... and an array that GREW to the shape: built from its first row, read (offsets, an element, an iteration), then
+# extended by append -- whatever a read computed and kept must not outlive the append (scalar elements only)
+VARIANTS = [(f, e) for e in ELEMS for f in RFORMS] + [("grown-by-append", "scalar")]
 
 # scope per tier.  emit: list of (constants, number of shape shards); mc: the same for the step machine
 # long family (RaggedRead.tla Part 6): positions in LongCatalogue; one TLC job per group of index kinds
@@ -174,6 +176,14 @@ def build(lens, form, elem):
         return ra.RaggedArray([r.copy() for r in rows])
     if form == "nested-lists":
         return ra.RaggedArray([r.tolist() for r in rows])
+    if form == "grown-by-append":
+        a = ra.RaggedArray([rows[0].copy()])
+        _ = (a.starts, a.lengths, list(a), a.flatten())
+        if len(rows[0]):
+            _ = (a[0, 0], a[-1, -1], a[:, 0])
+        if len(rows) > 1:
+            a.append([r.copy() for r in rows[1:]])
+        return a
     flat = np.concatenate(rows)
     if form == "flat+list-lengths":
         return ra.RaggedArray(flat, lengths=list(lens))
